@@ -7,7 +7,7 @@
     and therefore the trie structure (up to the hash caches) and the root hash computed from
     it depend on the key-value content alone — not on the order of operations. *)
 From Coq Require Import List NArith Arith Bool.
-From Kardia Require Import C07.Model C07.ProofsBase C07.ProofsMap C07.ProofsCanon C07.ProofsEnc C07.ProofsCache C07.Open.
+From Kardia Require Import C07.Model C07.ProofsBase C07.ProofsMap C07.ProofsCanon C07.ProofsEnc C07.ProofsCache C07.ProofsRlp C07.ProofsCodec C07.ProofsCommit C07.ProofsReopen C07.ProofsProof C07.Open.
 Import ListNotations.
 
 (** keybytesToHex is injective on byte strings and yields well-formed keys *)
@@ -135,6 +135,103 @@ Proof.
   split; [rewrite T1, T2, E; reflexivity|]. intros kb Hb. apply represents_get; auto.
 Qed.
 Print Assumptions C07_root_independent_of_hashing.
+
+(** node codec round trip: decodeNode applied to the encoding that hasher / committer / Prove
+    write for a canonical node (followed by arbitrary bytes, as for embedded nodes) returns the
+    node with every child collapsed exactly as it was encoded: hash node, embedded node,
+    value, nil.  [H] is arbitrary except that its outputs are 32 bytes long; keys and values
+    in the trie are shorter than 2^32 ([sized]). *)
+Theorem C07_node_codec_roundtrip :
+  forall (H : bytes -> bytes), (forall x, length (H x) = 32) ->
+  forall n, canon n -> sized n -> n <> Empty ->
+  forall fuel h rest, length (cenc H n) <= fuel ->
+  decode_node fuel h (cenc H n ++ rest) = Some (shallow H h n).
+Proof. exact decode_cenc. Qed.
+Print Assumptions C07_node_codec_roundtrip.
+
+(** Trie.get on a partially resolved trie (hash nodes resolved through the database and
+    decodeNode) returns what the fully resolved canonical trie holds, and the replacement
+    root it returns is again a view of the same trie *)
+Theorem C07_get_through_resolution :
+  forall (H : bytes -> bytes), (forall x, length (H x) = 32) ->
+  forall d fuel n' n k, rel H d n' n -> canon n -> sized n -> wfk k ->
+  2 * length k + ref_cost n' < fuel ->
+  exists v n'', get fuel d n' k = Ok (v, n'') /\
+                ((v = [] /\ forall w, ~ has n k w) \/ (v <> [] /\ has n k v)) /\ rel H d n'' n.
+Proof. exact get_rel. Qed.
+Print Assumptions C07_get_through_resolution.
+
+(** commit, then reopen: after any history of Update / Delete / Hash(), Trie.Commit(false)
+    followed by Database.Update and trie.New(root) yields a trie with the committed root
+    hash whose Get returns the map value for every key; so does the committed trie itself
+    (its root is now a hash node).  Alternatives: an explicit Keccak collision, or the
+    root hash is the all-zero hash, which trie.New treats as "empty trie". *)
+Theorem C07_reopen :
+  forall (H : bytes -> bytes), (forall x, length (H x) = 32) ->
+  forall d0 d ops n,
+  Forall (fun o => is_bytes (hop_key o)) ops ->
+  hrun H d0 Empty ops = Ok n -> n <> Empty ->
+  let m := content (fun _ => []) (flat_map hop_mop ops) in
+  bounded m ->
+  let '(h, root', set) := trie_commit H n in
+  let d' := set ++ d in
+  collision H \/ h = repeat 0%N 32 \/
+  (h = fst (trie_hash H n) /\ root' = Ref h /\
+   exists r, trie_open H d' h = Ok r /\ fst (trie_hash H r) = h /\
+             forall kb, is_bytes kb ->
+               (exists r', trie_get d' r kb = Ok (m kb, r')) /\
+               (exists r', trie_get d' root' kb = Ok (m kb, r'))).
+Proof.
+  intros H Hlen d0 d ops n Hk Hr Hne m Hb.
+  destruct (hrun_represents H d0 ops _ Empty represents_empty I Hk) as (n1 & E1 & P1 & C1).
+  rewrite Hr in E1. inversion E1; subst n1.
+  exact (commit_reopen H Hlen d m n P1 C1 Hb Hne).
+Qed.
+Print Assumptions C07_reopen.
+
+(** proofs, soundness: for ANY list of blobs (the verifier keys them by their own hash, as
+    [db_of] does), VerifyProof against the root of the trie reached by a history returns a
+    value only if it is exactly the stored one and "absent" only if the key is absent — or an
+    explicit Keccak collision exists.  Hence no tampered proof verifies to a different answer. *)
+Theorem C07_proof_sound :
+  forall (H : bytes -> bytes), (forall x, length (H x) = 32) ->
+  forall d0 ops n kb blobs,
+  Forall (fun o => is_bytes (hop_key o)) ops ->
+  hrun H d0 Empty ops = Ok n -> n <> Empty -> is_bytes kb ->
+  let m := content (fun _ => []) (flat_map hop_mop ops) in
+  bounded m ->
+  match verify_proof H (fst (trie_hash H n)) kb blobs with
+  | VValue v => (v = m kb /\ v <> []) \/ collision H
+  | VAbsent => m kb = [] \/ collision H
+  | _ => True
+  end.
+Proof.
+  intros H Hlen d0 ops n kb blobs Hk Hr Hne Hkb m Hb.
+  destruct (hrun_represents H d0 ops _ Empty represents_empty I Hk) as (n1 & E1 & P1 & C1).
+  rewrite Hr in E1. inversion E1; subst n1.
+  exact (proof_sound H Hlen m n kb blobs P1 C1 Hb Hne Hkb).
+Qed.
+Print Assumptions C07_proof_sound.
+
+(** proofs, completeness: Trie.Prove succeeds and the proof it builds verifies against the root
+    to exactly the stored value, or to "absent" for an absent key (or a collision exists) *)
+Theorem C07_proof_complete :
+  forall (H : bytes -> bytes), (forall x, length (H x) = 32) ->
+  forall d0 d ops n kb,
+  Forall (fun o => is_bytes (hop_key o)) ops ->
+  hrun H d0 Empty ops = Ok n -> n <> Empty -> is_bytes kb ->
+  let m := content (fun _ => []) (flat_map hop_mop ops) in
+  bounded m ->
+  exists blobs, prove H d n kb = Ok blobs /\
+    (verify_proof H (fst (trie_hash H n)) kb blobs =
+       match m kb with [] => VAbsent | _ => VValue (m kb) end \/ collision H).
+Proof.
+  intros H Hlen d0 d ops n kb Hk Hr Hne Hkb m Hb.
+  destruct (hrun_represents H d0 ops _ Empty represents_empty I Hk) as (n1 & E1 & P1 & C1).
+  rewrite Hr in E1. inversion E1; subst n1.
+  exact (proof_complete H Hlen d m n kb P1 C1 Hb Hne Hkb).
+Qed.
+Print Assumptions C07_proof_complete.
 
 (** the hypotheses are satisfiable and the functions compute: three keys with a shared prefix
     inserted in two different orders (one history also inserts and deletes a fourth key, the
